@@ -250,6 +250,30 @@ func genParserInput(t *rapid.T, ep string) ParserInput {
 	case 0, 1, 2, 3:
 		return ParserInput{EP: ep, Input: []byte(genValidFor(t, ep)), Src: "valid"}
 	case 4:
+		if rapid.Bool().Draw(t, "lineShape") {
+			// the shapes line-oriented formats give a meaning to, at the places a scanner looks for them:
+			// comment / armor / continuation / keyword starts in the first column, with and without a
+			// line end behind them, in front of, inside and behind a valid input
+			v := genValidFor(t, ep)
+			mark := rapid.SampledFrom([]string{"#", "# c", "#\n#", "-", "-----BEGIN PGP ", " ", "\t", ".", " .", "/*", "/* c */", "$Id$", "$Id: x $", ":", "::", ";", "--", " -- ", "\x00", "\r"}).Draw(t, "mark")
+			switch rapid.IntRange(0, 4).Draw(t, "markAt") {
+			case 0:
+				v = mark + v
+			case 1:
+				v = v + "\n" + mark
+			case 2:
+				v = strings.TrimSuffix(v, "\n") + "\n" + mark + "\n"
+			case 3:
+				if i := strings.Index(v, "\n"); i >= 0 {
+					v = v[:i+1] + mark + rapid.SampledFrom([]string{"", "\n"}).Draw(t, "markNL") + v[i+1:]
+				} else {
+					v = mark
+				}
+			default:
+				v = mark
+			}
+			return ParserInput{EP: ep, Input: []byte(v), Src: "mutated"}
+		}
 		return ParserInput{EP: ep, Input: rapid.SliceOfN(rapid.Byte(), 0, 64).Draw(t, "raw"), Src: "raw"}
 	case 5:
 		// up to 64 KiB: a valid input repeated
@@ -302,7 +326,7 @@ func genParserInput(t *rapid.T, ep string) ParserInput {
 			}
 			v = strings.Join(lines, "")
 		} else {
-			v = mutateBytes(t, v, ":,|()[]<>!${} \t\n-~+.;=", 3)
+			v = mutateBytes(t, v, ":,|()[]<>!${} \t\n-~+.;=#\"'\\%&*?@^_`/\r\x00", 3)
 		}
 		if rapid.IntRange(0, 3).Draw(t, "trunc") == 0 && len(v) > 0 {
 			v = v[:rapid.IntRange(0, len(v)).Draw(t, "cut")]
@@ -313,7 +337,7 @@ func genParserInput(t *rapid.T, ep string) ParserInput {
 
 var specC18Total = Register(&Spec[ParserInput]{
 	Prop: "C18", Name: "total",
-	Rule: "for each of 13 parser entry points (version.Parse; dependency.Parse / ParseArch / ParseArchitectures; ParagraphReader.All; ParseDsc, ParseChanges, ParseControl, ParseBinaryIndex, ParseSourceIndex, Unmarshal(&deb.Control); changelog.Parse / ParseOne) inputs from that parser's own grammar generator (4/20), line- and byte-level mutations (delete, duplicate, join, swap lines; one field repeated under lower- and upper-case spellings of its name) and truncations of them (14/20), raw bytes (1/21), a valid input repeated up to 64 KiB (1/21), and inputs whose total length or last-line length is exactly 4096*k-1, 4096*k or 4096*k+1 with and without a final newline (1/21). Oracle: the call returns within 60 s without panicking; when it returns an error no pointer/slice/map result is non-nil and non-empty and a struct result (version.Parse) is the zero value; a second call - made after 0..2 other generated inputs (often failing ones) went through the same entry point - gives a deeply equal value and the same error-ness. Non-trivial: grammar-derived input (valid, mutated or big); distinct by (entry point, bytes).",
+	Rule: "for each of 13 parser entry points (version.Parse; dependency.Parse / ParseArch / ParseArchitectures; ParagraphReader.All; ParseDsc, ParseChanges, ParseControl, ParseBinaryIndex, ParseSourceIndex, Unmarshal(&deb.Control); changelog.Parse / ParseOne) inputs from that parser's own grammar generator (4/20), line- and byte-level mutations (delete, duplicate, join, swap lines; one field repeated under lower- and upper-case spellings of its name) and truncations of them (14/20), raw bytes, or a valid input with a line-start marker ('#', '-', '/*', '$Id$', blank, '.', NUL ...) put in front of, behind or inside it with and without a line end (1/21), a valid input repeated up to 64 KiB (1/21), and inputs whose total length or last-line length is exactly 4096*k-1, 4096*k or 4096*k+1 with and without a final newline (1/21). Oracle: the call returns within 60 s without panicking; when it returns an error no pointer/slice/map result is non-nil and non-empty and a struct result (version.Parse) is the zero value; a second call - made after 0..2 other generated inputs (often failing ones) went through the same entry point - gives a deeply equal value and the same error-ness. Non-trivial: grammar-derived input (valid, mutated or big); distinct by (entry point, bytes).",
 	Check: checkParserInput,
 })
 
